@@ -208,7 +208,7 @@ RESOLUTIONS = ["480p (640 x 480)", "720p (1280 x 720)", "1080p (1920 x 1080)", "
 
 @st.composite
 def specs(draw, sharing=None, builders=None, max_len=48, long_prob=0.1, neg_stored=0.15, fixed=0.2,
-          max_ups=3, spare_ups=2, empty_lists=0.05, explicit=0.7, zero_journey=0.1, big=0.0):
+          max_ups=3, spare_ups=2, empty_lists=0.05, explicit=0.7, zero_journey=0.1, big=0.0, same_names=0.15):
     """A well-formed model. ``sharing``: none | infra_only | jobs_too (drawn when None)."""
     if sharing is None:
         sharing = draw(st.sampled_from(["none", "infra_only", "jobs_too", "jobs_too"]))
@@ -427,6 +427,18 @@ def specs(draw, sharing=None, builders=None, max_len=48, long_prob=0.1, neg_stor
         objs[u_] = {"cls": "UsagePattern", "usage_journey": up_journey[u_], "devices": dv, "network": n,
                     "country": c, "start": draw(start_dates()),
                     "starts": draw(series(max_len=max_len, long_prob=long_prob))}
+    # display names are chosen by users and may collide (two jobs called "upload"): now and then two objects of one class
+    # get the same display name (spec keys stay unique and are what the harness joins on)
+    if draw(st.floats(0, 1)) < same_names:
+        groups = {}
+        for n_, e_ in objs.items():
+            fam = "job" if e_["cls"] in S.JOB_CLS else "server" if e_["cls"] in S.SERVER_CLS else e_["cls"]
+            groups.setdefault(fam, []).append(n_)
+        multi = sorted(k_ for k_, v_ in groups.items() if len(v_) >= 2)
+        for fam in draw(st.lists(st.sampled_from(multi), min_size=1, max_size=3, unique=True)) if multi else []:
+            pair = draw(st.lists(st.sampled_from(groups[fam]), min_size=2, max_size=2, unique=True))
+            for n_ in pair:
+                objs[n_]["name"] = "same %s name" % fam
     return {"objs": objs, "system": up_names[:n_ups], "sharing": sharing}
 
 
